@@ -17,9 +17,11 @@ type verifConn struct {
 	idleAt int64
 }
 
-func (c *verifConn) Read([]byte) (int, error)         { return 0, nil }
-func (c *verifConn) Write(b []byte) (int, error)      { return len(b), nil }
-func (c *verifConn) Close() error                     { c.closed = true; return nil }
+func (c *verifConn) Read([]byte) (int, error)    { return 0, nil }
+func (c *verifConn) Write(b []byte) (int, error) { return len(b), nil }
+
+// Close is a system call on a real connection: a scheduling point.
+func (c *verifConn) Close() error                     { verifrt.Yield(); c.closed = true; return nil }
 func (c *verifConn) LocalAddr() net.Addr              { return nil }
 func (c *verifConn) RemoteAddr() net.Addr             { return nil }
 func (c *verifConn) SetDeadline(time.Time) error      { return nil }
@@ -157,6 +159,45 @@ func VerifC20Concurrent(pair int) {
 	case 3: // the first Put of a backend the pool has not seen yet, racing Shutdown
 		verifrt.Go(func() { kept = p.Put("y", b) })
 		verifrt.Go(func() { p.Shutdown() })
+	case 7: // a request finds only stale connections (two of them) while another request returns a fresh one
+		a2 := &verifConn{id: 2}
+		p.Put("x", a2)
+		verifrt.Advance(2 * time.Minute)
+		var g net.Conn
+		verifrt.Go(func() { g = p.Get("x") })
+		verifrt.Go(func() { kept = p.Put("x", b) })
+		verifrt.WaitAll()
+		verifrt.Assert(g == nil, "a stale connection is never handed out (a Put that came first found max_idle connections parked and declined)")
+		verifrt.Assert(a.closed && a2.closed, "the stale connections a Get discarded are closed")
+		idle, _ := p.Stats("x")
+		verifrt.Assert(kept != b.closed, "Put either keeps the connection idle or closes it")
+		if kept {
+			verifrt.Assert(idle == 1, "the fresh connection returned meanwhile is parked, open and counted")
+			verifrt.Assert(p.Get("x") == net.Conn(b) && !b.closed, "the parked connection is handed out, still open")
+		}
+		p.Shutdown()
+		verifrt.Assert(a.closed && a2.closed, "Shutdown closes everything the pool still holds")
+		return
+	case 5: // the janitor finds the backend's last connection stale (nothing checked out) while the pool shuts down
+		verifrt.Advance(2 * time.Minute)
+		verifrt.Go(func() { p.cleanup() })
+		verifrt.Go(func() { p.Shutdown() })
+		verifrt.WaitAll() // (a lock-order inversion between the two shows up as a deadlock here)
+		verifrt.Assert(a.closed, "a stale connection is closed by the janitor or by the shutdown, whichever gets there")
+		return
+	case 6: // ... while a request asks for a connection and the admin API reads the statistics
+		verifrt.Advance(2 * time.Minute)
+		var g net.Conn
+		verifrt.Go(func() { p.cleanup() })
+		verifrt.Go(func() { g = p.Get("x"); p.Stats("x") })
+		verifrt.WaitAll()
+		verifrt.Assert(g == nil && a.closed, "a connection idle longer than idle_timeout is closed and never handed out")
+		kept = p.Put("x", b)
+		idle, _ := p.Stats("x")
+		verifrt.Assert(kept && idle == 1, "after the janitor emptied a backend's pool a returned connection is parked again")
+		p.Shutdown()
+		verifrt.Assert(b.closed, "Shutdown closes every connection the pool accepted")
+		return
 	}
 	verifrt.WaitAll()
 	if pair == 0 {
